@@ -33,6 +33,8 @@ def space(tier, seed):
     for n in range(0, maxrows + 2):
         if tier == 'thorough':
             bounds += [('TOP', n), ('LIMIT', n)]
+        elif n == 0:
+            bounds += [('TOP', 0), ('LIMIT', 0)]
         else:
             bounds.append(('TOP', n) if n % 2 else ('LIMIT', n))
     decos = ['none', 'where', 'join', 'unnest']
